@@ -685,6 +685,20 @@ func c11RuleG(w *World, r *Report) {
 				if stripIdentity(gl) == l {
 					installed[kind] = true
 				}
+				// the gate's listener is what an installing helper returned
+				if hc, ok := stripIdentity(gl).(*ssa.Call); ok {
+					if h := hc.Call.StaticCallee(); h != nil && within[h] && h == ic.call.Parent() {
+						for _, b := range h.Blocks {
+							if ret, ok := b.Instrs[len(b.Instrs)-1].(*ssa.Return); ok {
+								for _, rv := range ret.Results {
+									if stripIdentity(rv) == l {
+										installed[kind] = true
+									}
+								}
+							}
+						}
+					}
+				}
 			}
 		}
 		for _, kind := range []string{"lexer", "parser"} {
